@@ -82,6 +82,48 @@ def sccs(body):
     return comp
 
 
+def live_endpoints(b, f, state, exclude=()):
+    """owned channel endpoints that may be initialised in `state` (maybe-init facts), tuple/struct fields tracked by index"""
+    live = []
+    for l, moved in state.items():
+        if l in exclude:
+            continue
+        ty = b.local_ty(l)["s"]
+        if not owned_endpoint(ty):
+            continue
+        comps = split_tuple_type(ty)
+        if comps:
+            for k, ct in enumerate(comps):
+                if owned_endpoint(ct) and k not in moved:
+                    live.append("%s.%d: %s" % (b.names.get(l, "_%d" % l), k, ct[:60]))
+        else:
+            # struct/enum/plain endpoint: live unless moved entirely (partial moves of struct fields tracked by index)
+            a = f.adts.get(b.local_ty(l).get("adt") or "")
+            if a and a["kind"] == "struct" and not ty.startswith(("flume::", "crossbeam_channel::")):
+                flds = a["variants"][0]["fields"]
+                lf = [fd["name"] for i, fd in enumerate(flds) if owned_endpoint(fd["ty"]["s"]) and i not in moved]
+                if lf:
+                    live.append("%s{%s}: %s" % (b.names.get(l, "_%d" % l), ",".join(lf), ty[:60]))
+            else:
+                live.append("%s: %s" % (b.names.get(l, "_%d" % l), ty[:70]))
+    return live
+
+
+def recv_loop_fns(ctx):
+    """functions that block in a loop around a channel recv until the channel disconnects (the R17.2 instances of kind recv)"""
+    f, cg, out = ctx.facts(), ctx.cg(), set()
+    for path in ctx.reachable():
+        fn = f.fns.get(path)
+        if not fn or not fn.get("mir") or fn.get("derived"):
+            continue
+        b = cg.body(path)
+        for bb, t, cal, c in b.calls():
+            if cal and (cal in ("crossbeam_channel::channel::Receiver::<T>::recv", "flume::Receiver::<T>::recv") or
+                        (cal.endswith("Iterator>::next") and ("<flume::" in cal or "<crossbeam_channel::" in cal))) and b.on_cycle(bb):
+                out.add(path)
+    return out
+
+
 def join_sites(b):
     """(block, terminator-like dict whose args[0] is the joined handle) for every join in a body: direct calls of
     JoinHandle::join, and `handle_option.map(JoinHandle::join)`-style calls that hand the method over as a value"""
@@ -120,33 +162,34 @@ def run_termination_rules(ctx, rep):
         IN, at_call = maybe_init(b)
         state = at_call(bb)
         short = path.split("::")[-1] if "{closure" not in path else "::".join(path.split("::")[-2:])
-        live = []
-        for l, moved in state.items():
-            ty = b.local_ty(l)["s"]
-            if not owned_endpoint(ty):
-                continue
-            comps = split_tuple_type(ty)
-            if comps:
-                for k, ct in enumerate(comps):
-                    if owned_endpoint(ct) and k not in moved:
-                        live.append("%s.%d: %s" % (b.names.get(l, "_%d" % l), k, ct[:60]))
-            else:
-                if not moved or True:
-                    # struct/enum/plain endpoint: live unless moved entirely (partial moves of struct fields tracked by index)
-                    a = f.adts.get(b.local_ty(l).get("adt") or "")
-                    if a and a["kind"] == "struct" and not ty.startswith(("flume::", "crossbeam_channel::")):
-                        flds = a["variants"][0]["fields"]
-                        lf = [fd["name"] for i, fd in enumerate(flds) if owned_endpoint(fd["ty"]["s"]) and i not in moved]
-                        if lf:
-                            live.append("%s{%s}: %s" % (b.names.get(l, "_%d" % l), ",".join(lf), ty[:60]))
-                    else:
-                        live.append("%s: %s" % (b.names.get(l, "_%d" % l), ty[:70]))
+        live = live_endpoints(b, f, state)
         handle = show_origin(b.origin(t["args"][0]))[:60]
         key = "R17.1|%s|%d" % (short, len([1 for x in rep.instances if x["key"].startswith("R17.1|%s|" % short)]))
         rep.check(not live, "R17.1", key, "no owned channel endpoint is live when %s joins %s" % (short, handle), "%s (%s)" % (path, where(t["sp"])),
                   "owned channel endpoint(s) %s may still be alive when %s blocks in JoinHandle::join (%s): the joined thread (or its peers) can wait forever on that channel" % (
                       live, short, where(t["sp"])))
     rep.floor("R17.1", n_join, 5, "JoinHandle::join call sites")
+    # a thread owner that waits in a recv-loop helper (drained until the producer thread ends) is blocked exactly like at a
+    # join: an owned endpoint of another channel alive there keeps that channel connected for the whole wait
+    blocking = recv_loop_fns(ctx)
+    n_block = 0
+    for path in sorted({p for p, _, _ in all_joins}):
+        b = cg.body(path)
+        at_call = None
+        for bb, t, cal, c in b.calls():
+            if cal not in blocking or cal == path:
+                continue
+            if at_call is None:
+                _, at_call = maybe_init(b)
+            moved_here = {a["mv"]["l"] for a in t.get("args", []) if isinstance(a, dict) and "mv" in a}
+            live = live_endpoints(b, f, at_call(bb), exclude=moved_here)
+            short = path.split("::")[-1] if "{closure" not in path else "::".join(path.split("::")[-2:])
+            n_block += 1
+            rep.check(not live, "R17.1", "R17.1|%s|waits_in|%s" % (short, cal.split("::")[-1]),
+                      "no owned channel endpoint is live while %s waits in the recv loop of %s" % (short, cal.split("::")[-1]), "%s (%s)" % (path, where(t["sp"])),
+                      "owned channel endpoint(s) %s may still be alive while %s is blocked in %s (a loop that only ends when its channel disconnects, %s): "
+                      "a thread blocked on that other channel can never be released, and the wait never ends" % (live, short, cal.split("::")[-1], where(t["sp"])))
+    rep.floor("R17.1-wait", n_block, 1, "thread owners that wait in a recv-loop helper")
     # dispatcher: process_channels.clear() dominates the joins
     dj = "fastpasta::analyze::validators::validator_dispatcher::ValidatorDispatcher::<T, C>::join"
     if dj in f.fns:
@@ -284,11 +327,20 @@ def run_termination_rules(ctx, rep):
         full = bool(dr) and "RangeFull" in show_origin(b.origin(dr[0]["args"][1]))
         rep.check(ok and full, "R17.3", "R17.3|dispatcher|joins_all", "ValidatorDispatcher::join drains all handles (..) and joins each", dj)
     # every validator handle is stored: the spawn result is pushed into validator_thread_handles
-    dbi = "fastpasta::analyze::validators::validator_dispatcher::ValidatorDispatcher::<T, C>::dispatch_by_id"
-    if dbi in f.fns:
-        b = cg.body(dbi)
-        pushes = [t for bb, t, cal, c in b.calls() if cal and cal.endswith("Vec::<T, A>::push") and "validator_thread_handles" in show_origin(b.origin(t["args"][0]))]
-        ok = len(pushes) == 1 and "spawn" in show_origin(b.origin(pushes[0]["args"][1]))
+    # (searched in every method of the dispatcher: the spawn may live in dispatch_by_id or in a helper split from it)
+    VDP = "fastpasta::analyze::validators::validator_dispatcher::ValidatorDispatcher::<T, C>::"
+    dbi = VDP + "dispatch_by_id"
+    vd_fns = [p_ for p_ in sorted(f.fns) if p_.startswith(VDP) and "{closure" not in p_ and f.fns[p_].get("mir")]
+    if vd_fns:
+        pushes, spawns = [], 0
+        for p_ in vd_fns:
+            b = cg.body(p_)
+            for bb, t, cal, c in b.calls():
+                if cal and cal.endswith("Vec::<T, A>::push") and "validator_thread_handles" in show_origin(b.origin(t["args"][0])):
+                    pushes.append("spawn" in show_origin(b.origin(t["args"][1])))
+                if cal and cal.endswith("Builder::spawn"):
+                    spawns += 1
+        ok = len(pushes) == 1 and pushes[0] and spawns == 1
         rep.check(ok, "R17.3", "R17.3|dispatcher|handle_stored", "each spawned validator's handle is stored for the final join", dbi)
 
 
